@@ -1,6 +1,7 @@
 package schedule
 
 import (
+	"sync"
 	"time"
 
 	"github.com/yandex/pandora/core"
@@ -327,5 +328,69 @@ func HarnessC01LazyStep() {
 	vCheck("lazystep.ok.iff.tokens", ok == (first < int64(len(counts))))
 	vCheck("lazystep.time.lo", vTimeNs(tx) >= before+off)
 	vCheck("lazystep.time.hi", vTimeNs(tx) <= after+off)
+	vReach("end")
+}
+
+// a step profile shared by two consumers (the instances of a pool share the RPS profile): under
+// every interleaving within the delay bound the tokens handed out are exactly those of the
+// succession of const profiles (level j counted from t0+j*dur), and the drained profile reports
+// t0+3*dur to every caller.
+func HarnessC01StepShared() {
+	from := vConcretize(vNondetInt("from", 0, 2))
+	dur := 500 * time.Millisecond
+	t0 := vNondetTime("t0")
+	sch := NewStep(float64(from), float64(from+2), 1, dur)
+	var exp []int64
+	for j := int64(0); j < 3; j++ {
+		r := from + j
+		n := r / 2 // floor(r * 0.5s)
+		for k := int64(0); k < n; k++ {
+			exp = append(exp, vTimeNs(t0)+j*int64(dur)+k*1_000_000_000/r)
+		}
+	}
+	sch.Start(t0)
+	var mu sync.Mutex
+	var got []int64
+	fins := make([]int64, 2)
+	var wg sync.WaitGroup
+	for c := 0; c < 2; c++ {
+		wg.Add(1)
+		go func(c int) {
+			defer wg.Done()
+			last := int64(0)
+			for i := 0; i <= len(exp); i++ {
+				tx, ok := sch.Next()
+				if !ok {
+					fins[c] = vTimeNs(tx)
+					return
+				}
+				vCheck("shared.monotone.per.consumer", vTimeNs(tx) >= last)
+				last = vTimeNs(tx)
+				mu.Lock()
+				got = append(got, vTimeNs(tx))
+				mu.Unlock()
+			}
+		}(c)
+	}
+	wg.Wait()
+	vCheck("shared.token.count", len(got) == len(exp))
+	if len(got) != len(exp) {
+		return
+	}
+	// compare as multisets (exp is ascending)
+	for i := 0; i < len(got); i++ {
+		for j := i + 1; j < len(got); j++ {
+			if got[j] < got[i] {
+				got[i], got[j] = got[j], got[i]
+			}
+		}
+	}
+	for i := range exp {
+		vCheck("shared.token.times", got[i] == exp[i])
+	}
+	for c := 0; c < 2; c++ {
+		vCheck("shared.finish.time", fins[c] == vTimeNs(t0)+3*int64(dur))
+	}
+	vObserve("n", int64(len(got)))
 	vReach("end")
 }
